@@ -27,7 +27,7 @@ def h_release(k0: int, k1: int, k2: int, k3: int, k4: int, k5: int, k6: int, k7:
     mode = P("mode", "close")
     name = op.name
     d = mkdata([k0, k1, k2, k3, k4, k5, k6, k7], [n0, n1, n2, 0], [p0, p1, p2], [b0, b1, b2])
-    o = Opts(fl=[P("fl", "agen")] * 4, ffl=P("ffl", "def"))
+    o = Opts(fl=(P("fls") or [P("fl", "agen")] * 4), ffl=P("ffl", "def"))
     fault = make_fault(z) if mode == "fault" else None
     Wa = World("a", fault_at=(y if mode == "fault" else 0), fault=fault)
     Wa.close_susp = P("close_susp", 0)
@@ -290,6 +290,10 @@ def jobs(tier):
         J.append({"module": "c04", "fn": fn, "part": part, "timeout": T})
 
     N1 = 2 if q else 3
+    for op in ("filter", "islice", "enumerate", "zip", "chain", "merge", "sorted", "list", "min"):
+        kw = {"form": 2, "PR": 2, "b0": False, "b1": False} if op == "islice" else {}
+        S_ = 2 if op in ("zip", "chain", "merge") else 1
+        add("h_release", op=op, S=S_, N=2, mode="close", X=(0, 3), fl="adual", **kw)
     for fl in ("agen", "acls"):
         for op in TOOLS1:
             kw = {"form": 2, "PR": 2, "b0": False, "b1": False} if op == "islice" else {}
@@ -311,6 +315,11 @@ def jobs(tier):
             kw = {"form": 2, "PR": 2, "b0": False, "b1": False} if op == "islice" else {}
             S_ = 2 if op in TOOLS2 else 1
             add("h_release", op=op, S=S_, N=2, mode="close", X=(0, 3), fl=fl, close_susp=1, **kw)
+        # mixed argument kinds: a sync iterable first, the async iterator after it
+        for op in ("chain", "zip", "zip_longest", "map", "merge", "compress"):
+            for first in ("list", "iter"):
+                add("h_release", op=op, S=2, N=2, mode="fault", X=(5, 5), Y=(1, 8), Z=(0, 1), fls=[first, fl, fl, fl])
+                add("h_release", op=op, S=2, N=2, mode="close", X=(0, 3), fls=[first, fl, fl, fl])
         for op in ("zip", "zip_longest", "chain", "merge"):
             add("h_release", op=op, S=3, N=1, mode="close", X=(0, 4), fl=fl)
             add("h_release", op=op, S=3, N=1, mode="fault", X=(4, 4), Y=(1, 7), Z=(0, 2), fl=fl)
@@ -325,7 +334,7 @@ def jobs(tier):
 
 
 BOUNDS = {
-    "quick": "per tool: j=0..N+1 items taken then aclose (also with sources whose aclose() suspends); or one fault (3 kinds) at symbolic use position k; or consumer athrow after j items; N<=2 items per source, S<=3 sources; sources = async generators and class-based iterators with aclose; tee: 2..3 children, j_i items each, every closing order or handle.aclose(); groupby: 0..3 advances, 0..2 group items, then aclose; aggregations incl. failures in +, hash, unpack and comparison",
+    "quick": "per tool: j=0..N+1 items taken then aclose (also with sources whose aclose() suspends); or one fault (3 kinds) at symbolic use position k; or consumer athrow after j items; N<=2 items per source, S<=3 sources; sources = async generators and class-based iterators with aclose (also mixed with sync iterables, and class-based ones that are also sync-iterable); tee: 2..3 children, j_i items each, every closing order or handle.aclose(); groupby: 0..3 advances, 0..2 group items, then aclose; aggregations incl. failures in +, hash, unpack and comparison",
     "thorough": "N<=3",
 }
 OUTSIDE = ["invalid parameters (batched n<1: the tool refuses before taking ownership)", "chain.from_iterable owns only the iterables already fetched from the outer iterable (documented)", "generator-based tools that were never advanced (the property's obligation starts with the first advance)", "sources without aclose (nothing to release)", "lengths above the bound"]
